@@ -997,10 +997,9 @@ def run(tier: str, seed: int) -> dict:
                 continue
         seen.add(f["witness"])
         kept.append(f)
-    n_strings = sum(len(ALPHA1) ** k for k in range(1, L + 1)) + sum(len(ALPHA2) ** k for k in range(1, 5))
     return {
         "evaluations": counts["escaper_checks"] + counts["model_checks"] + counts["file_checks"] + counts["thirdparty_checks"],
-        "distinct_nontrivial": n_strings * 4 + counts["models"] + len(counts["files_checked"]) + counts["thirdparty_documents"],
+        "distinct_nontrivial": counts["escaper_checks"] + counts["models"] + len(counts["files_checked"]) + counts["thirdparty_documents"],
         "rule": "escapers: every (string, escaper pair); models: every generated model (distinct by (family, seed, index); each "
                 "goes through 4 channels x 1-2 id modes, compared, re-tripped once per mode, validated once per mode, optimised); "
                 "files: every shipped SBML file except the invalid fixtures, each reaction / objective compared with the ElementTree "
